@@ -13,7 +13,7 @@ func init() {
 		ID: "C16", Level: "exploration",
 		Rule: "one case = one history of 8..40 cursor operations on two cursors (DECLARE, OPEN, FETCH NEXT/PRIOR/FIRST/LAST/ABSOLUTE n/RELATIVE n with n in {0,±1,±len,±(len+1),10^12}, CLOSE, DISPOSE, WHILE..IN, the status expressions IS [NOT] OPEN / IS [NOT] IN RANGE / COUNT) interleaved with INSERT/UPDATE/DELETE/ALTER on the underlying table, COMMIT and ROLLBACK, executed statement by statement in one real transaction; result sizes 0,1,2,7 and 300. " +
 			"Oracle: a cursor model (declared, open, snapshot rows taken by a SELECT of the same query at OPEN time, pointer clamped to [-1,len], fetched flag); fetched values, status values, the rows visited by WHILE..IN and whether an operation is an error are compared after every operation. non-trivial = at least 3 in-range fetches were compared after the underlying table had changed; distinct = history digest.",
-		Quick: 3000, Thorough: 100000, FloorQuick: 600, FloorThorough: 20000,
+		Quick: 6000, Thorough: 100000, FloorQuick: 600, FloorThorough: 12000,
 		Assumptions: []string{"the variables after an out-of-range FETCH are not judged (the manual says NULL, the property is silent)", "fetch offsets that are not integers are executed only to watch for internal failures"},
 		Setup:       func(w *core.Worker) { core.HermeticProcess(w.Work) },
 		Fn:          c16Case,
@@ -268,6 +268,38 @@ func c16Case(w *core.Worker, i int) {
 				}
 			}
 			w.Count("nested_block_cursor_probes", 1)
+		case op == 17 && c.open && len(c.rows) > 0:
+			// one FETCH statement executed repeatedly (loop body): every execution addresses the same position of the snapshot
+			L := len(c.rows)
+			pos := r.Intn(L)
+			form := fmt.Sprintf("FETCH ABSOLUTE %d %s INTO @a, @b;", pos, cn)
+			wantIdx := []int{pos, pos, pos}
+			if r.Bool() && L >= 2 {
+				// FIRST, then RELATIVE 1 twice inside the loop would move; use the stationary pair ABSOLUTE p / RELATIVE 0
+				form = fmt.Sprintf("FETCH ABSOLUTE %d %s INTO @a, @b; FETCH RELATIVE 0 %s INTO @a, @b;", pos, cn, cn)
+			}
+			res := exec(fmt.Sprintf("VAR @k16 := 0; WHILE @k16 < 3 DO @k16 := @k16 + 1; %s PRINT @a; END WHILE; DISPOSE @k16;", form))
+			if !expectErr(res, false, "") {
+				return
+			}
+			var want []string
+			for _, wi := range wantIdx {
+				v := c.rows[wi][0]
+				if v.T == 'S' {
+					want = append(want, "'"+v.S+"'")
+				} else {
+					want = append(want, v.S)
+				}
+			}
+			got := strings.Fields(strings.ReplaceAll(res.Stdout, "\n", " "))
+			if strings.Join(got, " ") != strings.Join(want, " ") {
+				viol("fetched-row:repeated-statement", fmt.Sprintf("three executions of the same FETCH returned ids %v, the snapshot holds %v at position %d", got, want[0], pos))
+			}
+			compared++
+			if changedSinceOpen {
+				inRangeAfterChange++
+			}
+			c.fetched, c.idx = true, pos
 		case op >= 20 && c.open:
 			// extra weight on plain fetches while a cursor is open
 			res := exec(fmt.Sprintf("FETCH %s INTO @a, @b;", cn))
